@@ -89,15 +89,10 @@ end
 /-! ### qualified names -/
 
 theorem sliceKind_lit {e : Expr} {r : String} (h : sliceKind e = .lit r) : ∃ i k, e = .const i k r := by
-  unfold sliceKind at h
-  split at h
-  · simp at h
-  · simp at h
-  · rename_i i k r'
-    split at h
-    · simp at h
-    · simp at h; subst h; exact ⟨i, k, rfl⟩
-  · simp at h
+  cases e <;> simp only [sliceKind] at h <;> try (split at h <;> simp at h)
+  all_goals (try (simp at h))
+  rename_i i k r' _
+  subst h; exact ⟨i, k, rfl⟩
 
 /-- an expression that has a qualified name is left alone by the call_trees visitor (it contains no call) -/
 theorem visitE_of_qn (env : CallTrees.Env) (ctx : String) :
@@ -177,7 +172,7 @@ theorem calleeQn_of_qn : ∀ (e : Expr) (s : String), qnStr e = some s → calle
 theorem sliceKind_adjustCtx (ov : Option Ctx) (e : Expr) : sliceKind (adjustCtx ov e) = sliceKind e := by
   cases e <;> simp [adjustCtx, sliceKind]
   rename_i i k es c
-  cases k <;> simp [adjustCtx, sliceKind]
+  cases k <;> simp [adjustCtx]
 
 theorem qnStr_adjustCtx : ∀ (e : Expr) (ov : Option Ctx), qnStr (adjustCtx ov e) = qnStr e
   | .name .., _ => by simp [adjustCtx, qnStr]
